@@ -331,4 +331,117 @@ example : ∃ (v : Var) (ty oty a b : Nat) (vals os : List Elem) (o : Elem) (ran
 example : (write (some ⟨3, 1, 3, .arr 3 []⟩) 13 [] (some (.one (.bstr (some [10, 11]))))).2 =
     some ⟨3, 1, 3, .arr 3 [.num 3 10, .num 3 11]⟩ := by decide
 
+/-! ### nodes of every class, every attribute (Read / Write on the whole API surface) -/
+
+/-- **Read of any attribute of any node class returns a status, never panics.** -/
+theorem readNode_total (node : Option Node) (attr : Nat) (range : Bytes) : readNode node attr range ≠ .panic := by
+  unfold readNode readNodeWith
+  split
+  · simp
+  · split
+    · exact read_total _ _ _
+    · repeat' split
+      all_goals simp
+
+theorem setAttribute_good_or_same (n : Node) (a : Nat) (x : Val) :
+    (setAttribute n a x).1 = .good ∨ (setAttribute n a x).2 = n := by
+  unfold setAttribute
+  cases setAttr? n.cls a x <;> simp
+
+/-- a write that is not Good leaves the node (every attribute, the value, the masks) unchanged -/
+theorem writeNode_good_or_noop (node : Option Node) (attr : Nat) (range : Bytes) (null : Bool) (x : Option Val) :
+    (writeNode node attr range null x).1 = .good ∨ (writeNode node attr range null x).2 = node := by
+  unfold writeNode
+  split
+  · simp
+  · rename_i n
+    split
+    · have := write_good_or_noop (some n.var) attr range x
+      cases hw : write (some n.var) attr range x with
+      | mk st ov =>
+        rw [hw] at this
+        cases ov with
+        | none => simp
+        | some v =>
+          simp only at this ⊢
+          rcases this with h | h
+          · exact Or.inl h
+          · right; simp only [Option.some.injEq] at h; subst h; rfl
+    · repeat' split
+      all_goals (try simp)
+      rename_i y _
+      rcases setAttribute_good_or_same n attr y with h | h
+      · exact Or.inl h
+      · exact Or.inr h
+
+theorem writeNode_rejected_is_noop (node : Option Node) (attr : Nat) (range : Bytes) (null : Bool) (x : Option Val)
+    (h : (writeNode node attr range null x).1 ≠ .good) : (writeNode node attr range null x).2 = node := by
+  rcases writeNode_good_or_noop node attr range null x with h' | h'
+  · exact absurd h' h
+  · exact h'
+
+/-- **A Good write of a Variable's Value needs CurrentWrite *as it is now* (after any earlier write
+to UserAccessLevel) and a compatible value; a Good write of any other attribute needs the bit of
+that attribute in the node's current write mask.** -/
+theorem writeNode_good_requires (n : Node) (attr : Nat) (range : Bytes) (null : Bool) (x : Option Val)
+    (h : (writeNode (some n) attr range null x).1 = .good) :
+    (n.cls = 2 ∧ attr = 13 ∧ canWrite n.var = true ∧ ∃ y, x = some y ∧ validate n.var y = true) ∨
+    (¬ (n.cls = 2 ∧ attr = 13) ∧ isWritable n attr = true) := by
+  unfold writeNode at h
+  simp only at h
+  split at h
+  · rename_i hc
+    left
+    have hg : (write (some n.var) attr range x).1 = .good := by
+      cases hw : write (some n.var) attr range x with
+      | mk st ov => rw [hw] at h; cases ov <;> simpa using h
+    obtain ⟨h1, h2, h3⟩ := write_good_requires n.var attr range x hg
+    exact ⟨hc.1, h1, h2, h3⟩
+  · rename_i hc
+    right
+    refine ⟨hc, ?_⟩
+    split at h
+    · simp at h
+    · split at h
+      · simp at h
+      · rename_i hw; simpa using hw
+
+theorem applyUpd_keeps_value (n : Node) (u : Upd) : (applyUpd n u).var.value = n.var.value ∧ (applyUpd n u).cls = n.cls := by
+  cases u <;> exact ⟨rfl, rfl⟩
+
+/-- writing the UserAccessLevel attribute is observed by the access checks that follow -/
+theorem access_write_observed (n : Node) (b : Int) (hc : n.cls = 2) (hm : isWritable n 18 = true) :
+    ∃ n', writeNode (some n) 18 [] true (some (.one (.num 3 b))) = (.good, some n') ∧
+      n'.var.access = b.toNat % 16 ∧ n'.var.value = n.var.value := by
+  refine ⟨{ n with var := { n.var with access := b.toNat % 16 } }, ?_, rfl, rfl⟩
+  simp [writeNode, attrValid, hm, parseRange, setAttribute, setAttr?, hc, applyUpd]
+
+/-- only a write to the Value attribute can change a variable's value -/
+theorem writeNode_other_attr_keeps_value (n : Node) (attr : Nat) (range : Bytes) (null : Bool) (x : Option Val)
+    (ha : attr ≠ 13) : ∃ n', (writeNode (some n) attr range null x).2 = some n' ∧ n'.var.value = n.var.value ∧ n'.cls = n.cls := by
+  unfold writeNode
+  simp only
+  rw [if_neg (fun h => ha h.2)]
+  by_cases h1 : (!attrValid attr) = true
+  · rw [if_pos h1]; exact ⟨n, rfl, rfl, rfl⟩
+  rw [if_neg h1]
+  by_cases h2 : (!isWritable n attr) = true
+  · rw [if_pos h2]; exact ⟨n, rfl, rfl, rfl⟩
+  rw [if_neg h2]
+  by_cases h3 : attr ≠ 13 ∧ (!null) = true
+  · rw [if_pos h3]; exact ⟨n, rfl, rfl, rfl⟩
+  rw [if_neg h3]
+  cases parseRange range with
+  | none => exact ⟨n, rfl, rfl, rfl⟩
+  | some r =>
+    cases x with
+    | none => exact ⟨n, rfl, rfl, rfl⟩
+    | some y =>
+      simp only
+      rw [if_neg ha]
+      unfold setAttribute
+      cases hs : setAttr? n.cls attr y with
+      | error e => exact ⟨n, rfl, rfl, rfl⟩
+      | ok u => exact ⟨applyUpd n u, rfl, (applyUpd_keeps_value n u).1, (applyUpd_keeps_value n u).2⟩
+
 end OpcuaVerif.C32
